@@ -5,7 +5,7 @@ from vf.common import Harness, REPO
 LEVEL = "model_checking"
 TECHNIQUE = "CBMC bounded symbolic execution of the module functions (libyara/modules/hash, math, string) with the module glue stubbed, against bitwise reference definitions"
 ASSUMPTIONS = ["digest primitives (MD5/SHA: OpenSSL) are FFI and not modelled: the md5/sha1/sha256 walkers share the range logic of checksum32/crc32 which IS checked; digest values are outside",
-               "<= 2 blocks x 3 bytes, symbolic bases/gap, |offset|,|length| < 2^40", "libm-based statistics (entropy, deviation, ...) are outside"]
+               "<= 2 blocks x 3 bytes, symbolic bases/gap, |offset|,|length| < 2^40", "digest cache: sha1/md5 on 1 block <= 4 bytes, offsets/lengths 0..5, OpenSSL replaced by a stand-in that is injective on these inputs", "math: min/max/abs/to_number (all values), count (2 blocks); mode and the floating point statistics are not covered", "libm-based statistics (entropy, deviation, ...) are outside"]
 LEVEL_TEXT = "Bounded model checking of the range walkers and integer kernels for all offsets/lengths/bytes in the bound."
 LEVEL_NOTE = "; ".join(ASSUMPTIONS)
 
